@@ -6,11 +6,11 @@ N_QUICK = 4000
 N_THOROUGH = 120000
 SHARD = 400
 SHRINK_KEYS = ["steps", "init", "slices"]
-RULE = ("random histories (1-14 ops quick, 1-40 thorough) of _append (explicit/auto/permissive), _extend, _pop, _relabel (partial, "
+RULE = ("random histories (1-14 ops quick, 1-40 thorough) on an object built by the legacy append loop, Variables(list), Variables(generator), Variables(Variables(..)) or Variables(range(a, b, s)) (fast path range(n) incl. n <= 0; state compared right after construction) of fork steps (the history continues on copy() / copy.copy / deepcopy / pickle round trip / Variables(v) / Variables(list(v)) / Variables(generator) / v[:]; the objects left behind must keep their snapshot after every later call), index(v, permissive=True), _extend with a list / tuple / generator / Variables / range argument, relabels whose keys and targets are drawn from the labels currently held (integer labels at their own index included), _append (explicit/auto/permissive), _extend, _pop, _relabel (partial, "
         "swap, cycle, conflicting, absent keys), _relabel_as_integers, _remove, _clear over an alphabet mixing ints, 1.0/np.int64 "
         "aliases, strings, tuples and a non-integral float; after every op the three internal fields, the sequence and count/index "
         "for the probe alphabet, and list(v[a:b:s]) for 3-6 random slice probes per case (missing, negative, out-of-range bounds; steps of both signs and 0), are compared with the Coq model and with the Python list; the alphabet holds pairs of distinct labels with equal hashes (-1/-2, 0/2**61-1, (-1,)/(-2,)) and integers far beyond any index; non-trivial = at least one successful mutating op; distinct by case JSON")
-TRUSTED = ["model: coq/theories/Model/Vars.v, ChkC13.v (hand written mirror of cyvariables.pyx and utilities.iter_safe_relabels)",
+TRUSTED = ["translator translators/vars_ctor.py (cyVariables.__init__ dispatch on the argument shape, fast path condition and value, container _relabel passes to iter_safe_relabels; fail-closed)", "model: coq/theories/Model/Vars.v, ChkC13.v (hand written mirror of cyvariables.pyx and utilities.iter_safe_relabels)",
            "Python dict semantics (hash/eq of 1, 1.0, np.int64(1)) are modelled by label normalisation"]
 ASSUMPTIONS = ["Python dict and numeric-tower equality behave as modelled (1 == 1.0 == np.int64(1) is one key)"]
 PARTIAL = []
